@@ -1,4 +1,5 @@
 import GlotaranModel.C02
+import GlotaranProofs.Lemmas.LinAlg
 namespace Glotaran.C02
 open Glotaran.LinAlg
 
@@ -22,12 +23,856 @@ theorem interval_contains_iff_aux (lo hi : EB) (x : Rat) :
     · intro hh; exact Or.inr hh
     · rintro (hh | hh)
       · cases lo <;> cases hi <;> simp_all [EB.le]
-        exact absurd (Rat.le_trans hh.1 hh.2) h
+        exact absurd (Rat.le_trans hh.1 hh.2) (Rat.not_le.mpr h)
       · exact hh
+
+/-! ### masks -/
+
+theorem pickMask_nil_left {α} (xs : List α) : pickMask [] xs = [] := by simp [pickMask]
+theorem pickMask_nil_right {α} (k : List Bool) : pickMask k ([] : List α) = [] := by simp [pickMask]
+
+theorem pickMask_cons {α} (b : Bool) (ks : List Bool) (a : α) (t : List α) :
+    pickMask (b :: ks) (a :: t) = if b then a :: pickMask ks t else pickMask ks t := by
+  cases b <;> simp [pickMask]
+
+theorem pickMask_map_self {α} (p : α → Bool) (L : List α) : pickMask (L.map p) L = L.filter p := by
+  induction L with
+  | nil => simp [pickMask]
+  | cons a t ih =>
+    simp only [List.map_cons, pickMask_cons, ih, List.filter_cons]
+
+theorem pickMask_sublist {α} (k : List Bool) (xs : List α) : (pickMask k xs).Sublist xs := by
+  induction xs generalizing k with
+  | nil => simp [pickMask_nil_right]
+  | cons a t ih =>
+    cases k with
+    | nil => simp [pickMask_nil_left]
+    | cons b ks =>
+      rw [pickMask_cons]
+      cases b
+      · simpa using (ih ks).cons a
+      · simpa using (ih ks).cons_cons a
+
+theorem pickMask_length_eq {α β} (k : List Bool) (xs : List α) (ys : List β)
+    (hx : xs.length = k.length) (hy : ys.length = k.length) :
+    (pickMask k xs).length = (pickMask k ys).length := by
+  induction k generalizing xs ys with
+  | nil => simp [pickMask_nil_left]
+  | cons b ks ih =>
+    cases xs with
+    | nil => simp at hx
+    | cons a t =>
+      cases ys with
+      | nil => simp at hy
+      | cons a' t' =>
+        have := ih t t' (by simpa using hx) (by simpa using hy)
+        cases b <;> simp [pickMask_cons, this]
+
+theorem pickMask_all_true {α} (xs : List α) (k : List Bool) (hk : k.length = xs.length)
+    (h : ∀ b ∈ k, b = true) : pickMask k xs = xs := by
+  induction xs generalizing k with
+  | nil => simp [pickMask_nil_right]
+  | cons a t ih =>
+    cases k with
+    | nil => simp at hk
+    | cons b ks =>
+      have hb : b = true := h b (by simp)
+      subst hb
+      simp [pickMask_cons, ih ks (by simpa using hk) (fun b hb => h b (by simp [hb]))]
+
+theorem dot_pickMask (k : List Bool) (r c : Vec) (h : r.length = k.length) :
+    dot (pickMask k r) c = dot r (expandMask k c) := by
+  induction k generalizing r c with
+  | nil => simp [pickMask_nil_left, expandMask]
+  | cons b ks ih =>
+    cases r with
+    | nil => simp at h
+    | cons a t =>
+      have ht : t.length = ks.length := by simpa using h
+      cases b
+      · have h1 : pickMask (false :: ks) (a :: t) = pickMask ks t := by simp [pickMask_cons]
+        have h2 : expandMask (false :: ks) c = 0 :: expandMask ks c := rfl
+        rw [h1, h2, dot_cons, ih t c ht]; ring
+      · have h1 : pickMask (true :: ks) (a :: t) = a :: pickMask ks t := by simp [pickMask_cons]
+        have h2 : expandMask (true :: ks) c = c.headD 0 :: expandMask ks c.tail := rfl
+        rw [h1, h2, dot_cons, ← ih t c.tail ht]
+        cases c with
+        | nil => simp
+        | cons c0 c => simp [dot_cons]
+
+theorem idxOf?_cons_ne (a l : String) (P : List String) (h : a ≠ l) :
+    (a :: P).idxOf? l = (P.idxOf? l).map (· + 1) := by
+  simp [List.idxOf?_cons, h]
+
+theorem idxOf?_cons_self (a : String) (P : List String) : (a :: P).idxOf? a = some 0 := by
+  simp [List.idxOf?_cons]
+
+/-- expanding by a mask = looking every label up in the picked labels -/
+theorem expandMask_eq_map_idxOf (L : List String) (k : List Bool) (hL : L.Nodup)
+    (hk : k.length = L.length) (c : Vec) :
+    expandMask k c =
+      L.map (fun l => match (pickMask k L).idxOf? l with | some i => c.getD i 0 | none => 0) := by
+  induction L generalizing k c with
+  | nil =>
+    cases k with
+    | nil => simp [expandMask]
+    | cons _ _ => simp at hk
+  | cons a t ih =>
+    cases k with
+    | nil => simp at hk
+    | cons b ks =>
+      have hks : ks.length = t.length := by simpa using hk
+      have hat : a ∉ t := (List.nodup_cons.mp hL).1
+      have ht : t.Nodup := (List.nodup_cons.mp hL).2
+      cases b
+      · -- dropped position
+        have hnot : a ∉ pickMask ks t := fun hh => hat ((pickMask_sublist ks t).subset hh)
+        simp only [pickMask_cons, expandMask, List.map_cons, Bool.false_eq_true, if_false]
+        rw [List.idxOf?_eq_none_iff.mpr hnot, ih ks ht hks c]
+      · simp only [pickMask_cons, expandMask, List.map_cons, if_true, idxOf?_cons_self]
+        congr 1
+        · cases c <;> simp
+        · rw [ih ks ht hks c.tail]
+          apply List.map_congr_left
+          intro l hl
+          have hne : a ≠ l := fun h => hat (h ▸ hl)
+          rw [idxOf?_cons_ne a l _ hne]
+          cases (pickMask ks t).idxOf? l with
+          | none => rfl
+          | some i => cases c <;> simp
+
+theorem expandMask_pickMask_map (L : List String) (k : List Bool) (hk : k.length = L.length)
+    (g : String → Rat) :
+    expandMask k ((pickMask k L).map g) = (L.zip k).map (fun p => if p.2 then g p.1 else 0) := by
+  induction L generalizing k with
+  | nil =>
+    cases k with
+    | nil => simp [expandMask]
+    | cons _ _ => simp at hk
+  | cons a t ih =>
+    cases k with
+    | nil => simp at hk
+    | cons b ks =>
+      have hks : ks.length = t.length := by simpa using hk
+      cases b <;> simp [pickMask_cons, expandMask, ih ks hks]
+
+theorem zipIdx_filter_eq_pickMask {α} (r : List α) (s : Nat) (f : Nat → Bool) :
+    ((r.zipIdx s).filter (fun p => f p.2)).map (·.1) =
+      pickMask ((List.range' s r.length).map f) r := by
+  induction r generalizing s with
+  | nil => simp [pickMask]
+  | cons a t ih =>
+    simp only [List.zipIdx_cons, List.length_cons, List.range'_succ, List.map_cons, pickMask_cons,
+      List.filter_cons]
+    cases f s <;> simp [ih (s + 1)]
+
+/-- the mask "position not in `del`" of width `n` -/
+def maskOf (del : List Nat) (n : Nat) : List Bool := (List.range n).map (fun j => !del.contains j)
+
+theorem maskOf_length (del : List Nat) (n : Nat) : (maskOf del n).length = n := by simp [maskOf]
+
+theorem deleteCols_eq (m : Mat) (del : List Nat) (n : Nat) (h : ∀ r ∈ m, r.length = n) :
+    deleteCols m del = m.map (pickMask (maskOf del n)) := by
+  simp only [deleteCols]
+  apply List.map_congr_left
+  intro r hr
+  rw [zipIdx_filter_eq_pickMask r 0 (fun j => !del.contains j), h r hr, maskOf, List.range_eq_range']
+
+/-! ### constraints stage -/
+
+/-- the labels removed by `apply_constraints` at `x` -/
+def removedOf (cons : List Constraint) (x : Rat) (L : List String) : List String :=
+  (cons.filter (fun c => L.contains c.target && c.appliesAt x)).map (·.target)
+
+/-- the keep-mask of `apply_constraints` at `x` -/
+def keepOf (cons : List Constraint) (x : Rat) (L : List String) : List Bool :=
+  L.map (fun l => !(removedOf cons x L).contains l)
+
+theorem keepOf_length (cons : List Constraint) (x : Rat) (L : List String) :
+    (keepOf cons x L).length = L.length := by simp [keepOf]
+
+theorem removedOf_contains (cons : List Constraint) (x : Rat) (L : List String) (l : String)
+    (hl : l ∈ L) :
+    (removedOf cons x L).contains l = cons.any (fun c => c.target == l && c.appliesAt x) := by
+  rw [Bool.eq_iff_iff]
+  simp only [removedOf, List.contains_iff_mem, List.mem_map, List.mem_filter, List.any_eq_true,
+    Bool.and_eq_true, beq_iff_eq]
+  constructor
+  · rintro ⟨c, ⟨hc, _, ha⟩, rfl⟩
+    exact ⟨c, hc, rfl, ha⟩
+  · rintro ⟨c, hc, rfl, ha⟩
+    exact ⟨c, ⟨hc, hl, ha⟩, rfl⟩
+
+theorem applyConstraintsAt_eq (cons : List Constraint) (x : Rat) (lm : LMat2)
+    (hrows : ∀ r ∈ lm.m, r.length = lm.labels.length) :
+    applyConstraintsAt cons x lm =
+      ⟨pickMask (keepOf cons x lm.labels) lm.labels, lm.m.map (pickMask (keepOf cons x lm.labels))⟩ := by
+  simp only [applyConstraintsAt]
+  split
+  · rename_i he
+    have he' : removedOf cons x lm.labels = [] := by simpa [removedOf] using he
+    have hall : ∀ b ∈ keepOf cons x lm.labels, b = true := by
+      intro b hb
+      simp only [keepOf, he', List.mem_map] at hb
+      obtain ⟨_, _, rfl⟩ := hb
+      simp
+    have h1 := pickMask_all_true lm.labels _ (keepOf_length cons x lm.labels) hall
+    have h2 : lm.m.map (pickMask (keepOf cons x lm.labels)) = lm.m := by
+      conv => rhs; rw [← List.map_id lm.m]
+      apply List.map_congr_left
+      intro r hr
+      exact pickMask_all_true r _ (by rw [keepOf_length, hrows r hr]) hall
+    rw [h1, h2]
+  · rfl
+
+theorem applyConstraintsAt_labels (cons : List Constraint) (x : Rat) (lm : LMat2) :
+    (applyConstraintsAt cons x lm).labels = pickMask (keepOf cons x lm.labels) lm.labels := by
+  have := applyConstraintsAt_eq cons x ⟨lm.labels, []⟩ (by simp)
+  have h2 : (applyConstraintsAt cons x lm).labels = (applyConstraintsAt cons x ⟨lm.labels, []⟩).labels := by
+    simp only [applyConstraintsAt]
+    split <;> rfl
+  rw [h2, this]
 
 theorem constraints_labels (cons : List Constraint) (x : Rat) (lm : LMat2) :
     (applyConstraintsAt cons x lm).labels =
       lm.labels.filter (fun l => !(cons.any (fun c => c.target == l && c.appliesAt x))) := by
-  sorry
+  rw [applyConstraintsAt_labels, keepOf, pickMask_map_self]
+  apply List.filter_congr
+  intro l hl
+  rw [removedOf_contains cons x lm.labels l hl]
+
+theorem idxOf_cons_ne' (a l : String) (t : List String) (h : a ≠ l) :
+    (a :: t).idxOf l = t.idxOf l + 1 := by
+  have hb : (a == l) = false := by simpa using h
+  rw [List.idxOf_cons, hb]; rfl
+
+/-- picking by a mask keeps the entry under every surviving label -/
+theorem pickMask_getD_idxOf (L : List String) (k : List Bool) (r : Vec) (hL : L.Nodup)
+    (hk : k.length = L.length) (hr : r.length = L.length) (l : String) (hl : l ∈ pickMask k L) :
+    (pickMask k r).getD ((pickMask k L).idxOf l) 0 = r.getD (L.idxOf l) 0 := by
+  induction L generalizing k r with
+  | nil => simp [pickMask_nil_right] at hl
+  | cons a t ih =>
+    cases k with
+    | nil => simp at hk
+    | cons b ks =>
+      cases r with
+      | nil => simp at hr
+      | cons r0 r =>
+        have hks : ks.length = t.length := by simpa using hk
+        have hrl : r.length = t.length := by simpa using hr
+        have hat : a ∉ t := (List.nodup_cons.mp hL).1
+        have ht : t.Nodup := (List.nodup_cons.mp hL).2
+        by_cases hal : a = l
+        · subst hal
+          cases b
+          · simp only [pickMask_cons, Bool.false_eq_true, if_false] at hl
+            exact absurd ((pickMask_sublist ks t).subset hl) hat
+          · simp [pickMask_cons]
+        · have hlt : l ∈ pickMask ks t := by
+            cases b
+            · simpa [pickMask_cons] using hl
+            · have : l = a ∨ l ∈ pickMask ks t := by simpa [pickMask_cons] using hl
+              rcases this with h | h
+              · exact absurd h.symm hal
+              · exact h
+          have := ih ks r ht hks hrl hlt
+          cases b
+          · simp only [pickMask_cons, Bool.false_eq_true, if_false]
+            rw [this, idxOf_cons_ne' _ _ _ hal]; simp
+          · simp only [pickMask_cons, if_true]
+            rw [idxOf_cons_ne' _ _ _ hal, idxOf_cons_ne' _ _ _ hal]
+            simpa using this
+
+theorem idxOf?_eq_some_idxOf (L : List String) (l : String) (h : l ∈ L) :
+    L.idxOf? l = some (L.idxOf l) := by
+  induction L with
+  | nil => simp at h
+  | cons a t ih =>
+    by_cases hal : a = l
+    · subst hal; simp [List.idxOf?_cons]
+    · have hlt : l ∈ t := by
+        rcases List.mem_cons.mp h with h | h
+        · exact absurd h.symm hal
+        · exact h
+      rw [idxOf?_cons_ne a l t hal, ih hlt, idxOf_cons_ne' _ _ _ hal]; rfl
+
+/-- **columns of surviving labels are untouched by `apply_constraints`** -/
+theorem constraints_keep_columns_lem (cons : List Constraint) (x : Rat) (lm : LMat2)
+    (hL : lm.labels.Nodup) (hrows : ∀ r ∈ lm.m, r.length = lm.labels.length)
+    (l : String) (hl : l ∈ (applyConstraintsAt cons x lm).labels) :
+    colOf (applyConstraintsAt cons x lm).labels (applyConstraintsAt cons x lm).m l =
+      colOf lm.labels lm.m l := by
+  rw [applyConstraintsAt_eq cons x lm hrows] at hl ⊢
+  simp only at hl ⊢
+  have hlL : l ∈ lm.labels := (pickMask_sublist _ _).subset hl
+  simp only [colOf, idxOf?_eq_some_idxOf _ l hl, idxOf?_eq_some_idxOf _ l hlL, col, List.map_map]
+  congr 1
+  apply List.map_congr_left
+  intro r hr
+  exact pickMask_getD_idxOf lm.labels _ r hL (keepOf_length _ _ _) (hrows r hr) l hl
+
+/-! ### relations stage: structural unfolding -/
+
+theorem mapIdx_ite_const {α} (l : List α) (i : Nat) (a : α) :
+    l.mapIdx (fun k y => if k = i then a else y) = l.set i a := by
+  apply List.ext_getElem?
+  intro k
+  rw [List.getElem?_mapIdx, List.getElem?_set]
+  by_cases h : i = k
+  · subst h
+    by_cases h2 : i < l.length
+    · simp [h2]
+    · simp [h2]
+  · have : ¬ k = i := fun h' => h h'.symm
+    simp [h, this]
+
+theorem setEntry_eq (m : Mat) (i j : Nat) (v : Rat) (row : Vec) (h : m[i]? = some row) :
+    setEntry m i j v = m.set i (row.set j v) := by
+  simp only [setEntry, mapIdx_ite_const]
+  apply List.ext_getElem?
+  intro k
+  rw [List.getElem?_mapIdx, List.getElem?_set]
+  by_cases hk : i = k
+  · subst hk
+    obtain ⟨hlt, heq⟩ := List.getElem?_eq_some_iff.mp h
+    simp [hlt, heq]
+  · have : ¬ k = i := fun h' => hk h'.symm
+    simp [hk, this]
+
+def relStep (L : List String) (x : Rat) (acc : Mat × List Nat) (r : Relation) : Mat × List Nat :=
+  if L.contains r.target && applies r.interval x then
+    match L.idxOf? r.source, L.idxOf? r.target with
+    | some si, some ti => (setEntry acc.1 ti si r.param, acc.2 ++ [ti])
+    | _, _ => acc
+  else acc
+
+theorem applyRelationsAt_unfold (rels : List Relation) (x : Rat) (lm : LMat2) :
+    applyRelationsAt rels x lm =
+      (let p := rels.foldl (relStep lm.labels x) (identityRows lm.labels.length, [])
+       if p.2.isEmpty then lm else
+         let labels := (lm.labels.zipIdx.filter (fun q => !p.2.contains q.2)).map (·.1)
+         ⟨labels, matMul lm.m (deleteCols p.1 p.2) labels.length⟩) := rfl
+
+def baseOf (full reduced : List String) (c : Vec) : Vec :=
+  full.map (fun l => match reduced.idxOf? l with | some i => c.getD i 0 | none => 0)
+
+def retStep (full : List String) (x : Rat) (clps : Vec) (r : Relation) : Vec :=
+  if full.contains r.target && applies r.interval x && full.contains r.source then
+    match full.idxOf? r.source, full.idxOf? r.target with
+    | some si, some ti => clps.mapIdx (fun i v => if i = ti then r.param * clps.getD si 0 else v)
+    | _, _ => clps
+  else clps
+
+theorem retrieveClps_unfold (mi : ModelItems) (full reduced : List String) (c : Vec) (x : Rat) :
+    retrieveClps mi full reduced c x =
+      if mi.relations.isEmpty && mi.constraints.isEmpty then c
+      else mi.relations.foldl (retStep full x) (baseOf full reduced c) := rfl
+
+/-! ### the applying relations as index triples `(source index, target index, parameter)` -/
+
+def appliesRel (L : List String) (x : Rat) (r : Relation) : Bool :=
+  L.contains r.target && applies r.interval x && L.contains r.source
+
+def tripleOf (L : List String) (r : Relation) : Nat × Nat × Rat :=
+  (L.idxOf r.source, L.idxOf r.target, r.param)
+
+def triples (rels : List Relation) (L : List String) (x : Rat) : List (Nat × Nat × Rat) :=
+  (rels.filter (appliesRel L x)).map (tripleOf L)
+
+def stepM (acc : Mat) (t : Nat × Nat × Rat) : Mat := setEntry acc t.2.1 t.1 t.2.2
+def stepV (v : Vec) (t : Nat × Nat × Rat) : Vec := v.set t.2.1 (t.2.2 * v.getD t.1 0)
+def stepMD (acc : Mat × List Nat) (t : Nat × Nat × Rat) : Mat × List Nat :=
+  (stepM acc.1 t, acc.2 ++ [t.2.1])
+
+theorem contains_false_idxOf? (L : List String) (l : String) (h : L.contains l = false) :
+    L.idxOf? l = none := by
+  rw [List.idxOf?_eq_none_iff]
+  intro hm
+  have : L.contains l = true := by simpa using hm
+  rw [h] at this; cases this
+
+theorem contains_true_idxOf? (L : List String) (l : String) (h : L.contains l = true) :
+    L.idxOf? l = some (L.idxOf l) :=
+  idxOf?_eq_some_idxOf L l (by simpa using h)
+
+theorem relStep_eq (L : List String) (x : Rat) (acc : Mat × List Nat) (r : Relation) :
+    relStep L x acc r = if appliesRel L x r then stepMD acc (tripleOf L r) else acc := by
+  unfold relStep appliesRel
+  cases ht : L.contains r.target
+  · simp
+  · cases ha : applies r.interval x
+    · simp
+    · cases hs : L.contains r.source
+      · simp [contains_false_idxOf? L _ hs]
+      · simp [contains_true_idxOf? L _ hs, contains_true_idxOf? L _ ht, stepMD, stepM, tripleOf]
+
+theorem retStep_eq (L : List String) (x : Rat) (v : Vec) (r : Relation) :
+    retStep L x v r = if appliesRel L x r then stepV v (tripleOf L r) else v := by
+  unfold retStep appliesRel
+  cases ht : L.contains r.target
+  · simp
+  · cases ha : applies r.interval x
+    · simp
+    · cases hs : L.contains r.source
+      · simp
+      · simp [contains_true_idxOf? L _ hs, contains_true_idxOf? L _ ht, stepV, tripleOf,
+          mapIdx_ite_const]
+
+theorem foldl_relStep (L : List String) (x : Rat) (rels : List Relation) (acc : Mat × List Nat) :
+    rels.foldl (relStep L x) acc = (triples rels L x).foldl stepMD acc := by
+  induction rels generalizing acc with
+  | nil => rfl
+  | cons r rest ih =>
+    simp only [List.foldl_cons, relStep_eq, triples, List.filter_cons]
+    cases h : appliesRel L x r
+    · simpa [triples] using ih acc
+    · simpa [triples] using ih _
+
+theorem foldl_retStep (L : List String) (x : Rat) (rels : List Relation) (v : Vec) :
+    rels.foldl (retStep L x) v = (triples rels L x).foldl stepV v := by
+  induction rels generalizing v with
+  | nil => rfl
+  | cons r rest ih =>
+    simp only [List.foldl_cons, retStep_eq, triples, List.filter_cons]
+    cases h : appliesRel L x r
+    · simpa [triples] using ih v
+    · simpa [triples] using ih _
+
+theorem foldl_stepMD (T : List (Nat × Nat × Rat)) (acc : Mat × List Nat) :
+    T.foldl stepMD acc = (T.foldl stepM acc.1, acc.2 ++ T.map (·.2.1)) := by
+  induction T generalizing acc with
+  | nil => simp
+  | cons t T ih => simp [List.foldl_cons, ih, stepMD]
+
+
+/-! ### the relation matrix acts as `retrieve_clps` -/
+
+theorem mulVec_foldl_stepM (n : Nat) (w : Vec) (T : List (Nat × Nat × Rat)) (rm : Mat) (v : Vec)
+    (hT : (T.map (·.2.1)).Nodup) (hst : ∀ t ∈ T, ∀ t' ∈ T, t.1 ≠ t'.2.1)
+    (hlt : ∀ t ∈ T, t.1 < n ∧ t.2.1 < n)
+    (hw : ∀ t ∈ T, w.getD t.2.1 0 = 0)
+    (hrm : ∀ t ∈ T, rm[t.2.1]? = some (idRow n t.2.1))
+    (hv : ∀ t ∈ T, v.getD t.1 0 = w.getD t.1 0)
+    (hmv : mulVec rm w = v) :
+    mulVec (T.foldl stepM rm) w = T.foldl stepV v := by
+  induction T generalizing rm v with
+  | nil => simpa using hmv
+  | cons t T ih =>
+    obtain ⟨si, ti, p⟩ := t
+    have hTn : ti ∉ T.map (·.2.1) := (List.nodup_cons.mp (by simpa using hT)).1
+    have hT' : (T.map (·.2.1)).Nodup := (List.nodup_cons.mp (by simpa using hT)).2
+    have hsi : si < n := (hlt (si, ti, p) (by simp)).1
+    have hti : ti < n := (hlt (si, ti, p) (by simp)).2
+    have hne : si ≠ ti := hst (si, ti, p) (by simp) (si, ti, p) (by simp)
+    have hrow : rm[ti]? = some (idRow n ti) := hrm (si, ti, p) (by simp)
+    have hwt : w.getD ti 0 = 0 := hw (si, ti, p) (by simp)
+    have hvs : v.getD si 0 = w.getD si 0 := hv (si, ti, p) (by simp)
+    simp only [List.foldl_cons]
+    apply ih
+    · exact hT'
+    · intro t ht t' ht'; exact hst t (by simp [ht]) t' (by simp [ht'])
+    · intro t ht; exact hlt t (by simp [ht])
+    · intro t ht; exact hw t (by simp [ht])
+    · intro t ht
+      have : ti ≠ t.2.1 := fun h => hTn (by rw [h]; exact List.mem_map_of_mem ht)
+      simp only [stepM]
+      rw [setEntry_eq rm ti si p _ hrow, List.getElem?_set_ne this]
+      exact hrm t (by simp [ht])
+    · intro t ht
+      have : ti ≠ t.1 := fun h => hst t (by simp [ht]) (si, ti, p) (by simp) h.symm
+      simp only [stepV, List.getD_eq_getElem?_getD]
+      rw [List.getElem?_set_ne this]
+      simpa [List.getD_eq_getElem?_getD] using hv t (by simp [ht])
+    · simp only [stepM, stepV]
+      rw [setEntry_eq rm ti si p _ hrow]
+      simp only [mulVec] at hmv ⊢
+      rw [List.map_set, hmv, dot_set _ _ _ _ (by rw [idRow_length]; exact hsi),
+        dot_idRow n ti w hti, idRow_getD n ti si (fun h => hne h.symm), hwt, hvs]
+      congr 1
+      ring
+
+
+/-! ### well-formedness, NoChain -/
+
+/-- a labelled matrix is well formed: distinct labels, one column per label -/
+def WF (lm : LMat2) : Prop := lm.labels.Nodup ∧ ∀ r ∈ lm.m, r.length = lm.labels.length
+
+/-- among the relations that apply at `x` (target and source present, interval applies):
+    targets are pairwise distinct (as list positions) and no source is a target -/
+def NoChain (rels : List Relation) (L : List String) (x : Rat) : Prop :=
+  ((rels.filter (appliesRel L x)).map (·.target)).Nodup ∧
+  ∀ r ∈ rels, ∀ r' ∈ rels, appliesRel L x r = true → appliesRel L x r' = true →
+    r.source ≠ r'.target
+
+theorem idxOf_inj (L : List String) (a b : String) (ha : a ∈ L) (hb : b ∈ L)
+    (h : L.idxOf a = L.idxOf b) : a = b := by
+  have h1 := List.getElem_idxOf (List.idxOf_lt_length_of_mem ha)
+  have h2 := List.getElem_idxOf (List.idxOf_lt_length_of_mem hb)
+  rw [← h1, ← h2]
+  simp [h]
+
+theorem nodup_map_on {α β} {f : α → β} {l : List α}
+    (H : ∀ x ∈ l, ∀ y ∈ l, f x = f y → x = y) (d : l.Nodup) : (l.map f).Nodup :=
+  List.Pairwise.map _ (fun a b ⟨ma, mb, n⟩ e => n (H a ma b mb e)) (List.Pairwise.and_mem.1 d)
+
+theorem appliesRel_mem (L : List String) (x : Rat) (r : Relation) (h : appliesRel L x r = true) :
+    r.target ∈ L ∧ r.source ∈ L ∧ applies r.interval x = true := by
+  simp only [appliesRel, Bool.and_eq_true, List.contains_iff_mem] at h
+  exact ⟨h.1.1, h.2, h.1.2⟩
+
+theorem mem_triples (rels : List Relation) (L : List String) (x : Rat) (t : Nat × Nat × Rat) :
+    t ∈ triples rels L x ↔ ∃ r ∈ rels, appliesRel L x r = true ∧ tripleOf L r = t := by
+  simp [triples, List.mem_map, List.mem_filter, and_assoc]
+
+theorem triples_nodup (rels : List Relation) (L : List String) (x : Rat)
+    (h : NoChain rels L x) : ((triples rels L x).map (·.2.1)).Nodup := by
+  have : (triples rels L x).map (·.2.1) =
+      ((rels.filter (appliesRel L x)).map (·.target)).map L.idxOf := by
+    simp [triples, tripleOf, List.map_map, Function.comp_def]
+  rw [this]
+  apply nodup_map_on _ h.1
+  intro a ha b hb hab
+  simp only [List.mem_map, List.mem_filter] at ha hb
+  obtain ⟨r, ⟨_, hr⟩, rfl⟩ := ha
+  obtain ⟨r', ⟨_, hr'⟩, rfl⟩ := hb
+  exact idxOf_inj L _ _ (appliesRel_mem L x r hr).1 (appliesRel_mem L x r' hr').1 hab
+
+theorem triples_src_ne (rels : List Relation) (L : List String) (x : Rat)
+    (h : NoChain rels L x) : ∀ t ∈ triples rels L x, ∀ t' ∈ triples rels L x, t.1 ≠ t'.2.1 := by
+  intro t ht t' ht'
+  obtain ⟨r, hr, ha, rfl⟩ := (mem_triples rels L x t).mp ht
+  obtain ⟨r', hr', ha', rfl⟩ := (mem_triples rels L x t').mp ht'
+  intro heq
+  exact h.2 r hr r' hr' ha ha'
+    (idxOf_inj L _ _ (appliesRel_mem L x r ha).2.1 (appliesRel_mem L x r' ha').1 heq)
+
+theorem triples_lt (rels : List Relation) (L : List String) (x : Rat) :
+    ∀ t ∈ triples rels L x, t.1 < L.length ∧ t.2.1 < L.length := by
+  intro t ht
+  obtain ⟨r, _, ha, rfl⟩ := (mem_triples rels L x t).mp ht
+  exact ⟨List.idxOf_lt_length_of_mem (appliesRel_mem L x r ha).2.1,
+    List.idxOf_lt_length_of_mem (appliesRel_mem L x r ha).1⟩
+
+/-! ### relations stage -/
+
+theorem identityRows_rows (n : Nat) : ∀ r ∈ identityRows n, r.length = n := by
+  intro r hr
+  simp only [identityRows, List.mem_map] at hr
+  obtain ⟨_, _, rfl⟩ := hr
+  simp
+
+theorem setEntry_rows (m : Mat) (i j n : Nat) (v : Rat) (h : ∀ r ∈ m, r.length = n) :
+    ∀ r ∈ setEntry m i j v, r.length = n := by
+  intro r hr
+  simp only [setEntry, List.mem_mapIdx] at hr
+  obtain ⟨k, hk, rfl⟩ := hr
+  have := h m[k] (List.getElem_mem hk)
+  split <;> simp [this]
+
+theorem foldl_stepM_rows (T : List (Nat × Nat × Rat)) (m : Mat) (n : Nat)
+    (h : ∀ r ∈ m, r.length = n) : ∀ r ∈ T.foldl stepM m, r.length = n := by
+  induction T generalizing m with
+  | nil => simpa using h
+  | cons t T ih =>
+    simp only [List.foldl_cons]
+    exact ih _ (setEntry_rows m _ _ n _ h)
+
+theorem identityRows_getElem? (n i : Nat) (h : i < n) : (identityRows n)[i]? = some (idRow n i) := by
+  simp [identityRows, idRow, List.getElem?_range h]
+
+theorem mulVec_identityRows (n : Nat) (w : Vec) (h : w.length = n) :
+    mulVec (identityRows n) w = w := by
+  subst h
+  have : mulVec (identityRows w.length) w = (List.range w.length).map (fun i => dot (idRow w.length i) w) := by
+    simp [mulVec, identityRows, idRow, List.map_map, Function.comp_def]
+  rw [this]
+  conv => rhs; rw [← map_getD_range w]
+  apply List.map_congr_left
+  intro i hi
+  exact dot_idRow _ i w (by simpa using hi)
+
+/-- the structural form of `apply_relations` at `x` -/
+theorem applyRelationsAt_eq (rels : List Relation) (x : Rat) (lm : LMat2) :
+    applyRelationsAt rels x lm =
+      if (triples rels lm.labels x).isEmpty then lm
+      else
+        let mask := maskOf ((triples rels lm.labels x).map (·.2.1)) lm.labels.length
+        ⟨pickMask mask lm.labels,
+          matMul lm.m (((triples rels lm.labels x).foldl stepM (identityRows lm.labels.length)).map
+            (pickMask mask)) (pickMask mask lm.labels).length⟩ := by
+  rw [applyRelationsAt_unfold]
+  simp only [foldl_relStep, foldl_stepMD, List.nil_append]
+  have hlab : ∀ del : List Nat, (lm.labels.zipIdx.filter (fun q => !del.contains q.2)).map (·.1) =
+      pickMask (maskOf del lm.labels.length) lm.labels := by
+    intro del
+    rw [zipIdx_filter_eq_pickMask lm.labels 0 (fun j => !del.contains j), maskOf,
+      List.range_eq_range']
+  rw [hlab, deleteCols_eq _ _ lm.labels.length
+    (foldl_stepM_rows _ _ _ (identityRows_rows _))]
+  simp [List.isEmpty_iff]
+
+
+theorem expandMask_all_true (k : List Bool) (e : Vec) (h : ∀ b ∈ k, b = true)
+    (he : e.length = k.length) : expandMask k e = e := by
+  induction k generalizing e with
+  | nil =>
+    cases e with
+    | nil => rfl
+    | cons _ _ => simp at he
+  | cons b ks ih =>
+    have hb : b = true := h b (by simp)
+    subst hb
+    cases e with
+    | nil => simp at he
+    | cons e0 e =>
+      simp [expandMask, ih e (fun b hb => h b (by simp [hb])) (by simpa using he)]
+
+theorem baseOf_self (L : List String) (e : Vec) (hL : L.Nodup) (he : e.length = L.length) :
+    baseOf L L e = e := by
+  have hk : (List.replicate L.length true).length = L.length := by simp
+  have hall : ∀ b ∈ List.replicate L.length true, b = true := by
+    intro b hb; exact (List.mem_replicate.mp hb).2
+  have := expandMask_eq_map_idxOf L (List.replicate L.length true) hL hk e
+  rw [pickMask_all_true L _ hk hall, expandMask_all_true _ e hall (by simp [he])] at this
+  exact this.symm
+
+theorem applyRelationsAt_wf (rels : List Relation) (x : Rat) (lm : LMat2) (hwf : WF lm) :
+    WF (applyRelationsAt rels x lm) := by
+  rw [applyRelationsAt_eq]
+  split
+  · exact hwf
+  · exact ⟨(pickMask_sublist _ _).nodup hwf.1, matMul_row_length _ _ _⟩
+
+theorem applyRelationsAt_labels_sub (rels : List Relation) (x : Rat) (lm : LMat2) :
+    ∀ l ∈ (applyRelationsAt rels x lm).labels, l ∈ lm.labels := by
+  rw [applyRelationsAt_eq]
+  split
+  · exact fun l h => h
+  · exact fun l h => (pickMask_sublist _ _).subset h
+
+/-- **relations stage**: the matrix after `apply_relations` applied to `e` equals the original
+    matrix applied to `e` expanded to the full labels and completed by the relations -/
+theorem relations_stage (rels : List Relation) (x : Rat) (lm : LMat2) (hwf : WF lm)
+    (hnc : NoChain rels lm.labels x) (e : Vec)
+    (he : e.length = (applyRelationsAt rels x lm).labels.length) :
+    mulVec (applyRelationsAt rels x lm).m e =
+      mulVec lm.m ((triples rels lm.labels x).foldl stepV
+        (baseOf lm.labels (applyRelationsAt rels x lm).labels e)) := by
+  rw [applyRelationsAt_eq] at he ⊢
+  split
+  · rename_i hT
+    rw [if_pos hT] at he
+    rw [List.isEmpty_iff.mp hT, baseOf_self _ _ hwf.1 he]
+    rfl
+  · rename_i hT
+    rw [if_neg hT] at he
+    simp only at he ⊢
+    generalize hmask : maskOf ((triples rels lm.labels x).map (·.2.1)) lm.labels.length = mask at he ⊢
+    have hml : mask.length = lm.labels.length := by rw [← hmask, maskOf_length]
+    have hrows := foldl_stepM_rows (triples rels lm.labels x) _ _ (identityRows_rows lm.labels.length)
+    -- associativity
+    rw [mulVec_matMul]
+    swap
+    · intro b hb
+      simp only [List.mem_map] at hb
+      obtain ⟨row, hrow, rfl⟩ := hb
+      exact pickMask_length_eq mask row lm.labels (by rw [hrows row hrow, hml]) hml.symm
+    congr 1
+    -- push the mask to the vector
+    have h1 : mulVec (((triples rels lm.labels x).foldl stepM (identityRows lm.labels.length)).map
+        (pickMask mask)) e =
+        mulVec ((triples rels lm.labels x).foldl stepM (identityRows lm.labels.length))
+          (expandMask mask e) := by
+      simp only [mulVec, List.map_map]
+      apply List.map_congr_left
+      intro row hrow
+      exact dot_pickMask mask row e (by rw [hrows row hrow, hml])
+    rw [h1]
+    have h2 : baseOf lm.labels (pickMask mask lm.labels) e = expandMask mask e :=
+      (expandMask_eq_map_idxOf lm.labels mask hwf.1 hml e).symm
+    rw [h2]
+    apply mulVec_foldl_stepM lm.labels.length
+    · exact triples_nodup rels _ x hnc
+    · exact triples_src_ne rels _ x hnc
+    · exact triples_lt rels _ x
+    · intro t ht
+      apply expandMask_false
+      have hlt := (triples_lt rels _ x t ht).2
+      rw [← hmask]
+      simp only [maskOf, List.getElem?_map, List.getElem?_range hlt, Option.map_some]
+      congr 1
+      simp only [Bool.not_eq_false', List.contains_iff_mem]
+      exact List.mem_map_of_mem (f := fun t => t.2.1) ht
+    · intro t ht
+      exact identityRows_getElem? _ _ (triples_lt rels _ x t ht).2
+    · intro t _; rfl
+    · exact mulVec_identityRows _ _ (by rw [expandMask_length, hml])
+
+/-- **constraints stage**: dropping the constrained columns = putting `0` at the dropped labels -/
+theorem constraints_stage (cons : List Constraint) (x : Rat) (lm : LMat2) (hwf : WF lm) (c : Vec) :
+    mulVec (applyConstraintsAt cons x lm).m c =
+      mulVec lm.m (baseOf lm.labels (applyConstraintsAt cons x lm).labels c) := by
+  rw [applyConstraintsAt_eq cons x lm hwf.2]
+  simp only [mulVec, List.map_map]
+  apply List.map_congr_left
+  intro r hr
+  have hk := keepOf_length cons x lm.labels
+  simp only [Function.comp_def]
+  rw [dot_pickMask _ r c (by rw [hwf.2 r hr, hk]),
+    expandMask_eq_map_idxOf lm.labels _ hwf.1 hk c]
+  rfl
+
+
+/-! ### composition -/
+
+theorem map_getD_idxOf (L : List String) (g : String → Rat) (l : String) (h : l ∈ L) :
+    (L.map g).getD (L.idxOf l) 0 = g l := by
+  have hlt := List.idxOf_lt_length_of_mem h
+  simp [List.getD_eq_getElem?_getD, List.getElem?_map, List.getElem?_eq_getElem hlt]
+
+theorem baseOf_baseOf (L L1 L2 : List String) (c : Vec) (hsub : ∀ l ∈ L2, l ∈ L1) :
+    baseOf L L1 (baseOf L1 L2 c) = baseOf L L2 c := by
+  simp only [baseOf]
+  apply List.map_congr_left
+  intro l _
+  by_cases h1 : l ∈ L1
+  · rw [idxOf?_eq_some_idxOf L1 l h1]
+    exact map_getD_idxOf L1 _ l h1
+  · have h2 : l ∉ L2 := fun h => h1 (hsub l h)
+    rw [List.idxOf?_eq_none_iff.mpr h1, List.idxOf?_eq_none_iff.mpr h2]
+
+theorem baseOf_length (L R : List String) (c : Vec) : (baseOf L R c).length = L.length := by
+  simp [baseOf]
+
+theorem applyRelationsAt_nil (x : Rat) (lm : LMat2) : applyRelationsAt [] x lm = lm := by
+  rw [applyRelationsAt_eq]; simp [triples]
+
+theorem applyConstraintsAt_nil (x : Rat) (lm : LMat2) : applyConstraintsAt [] x lm = lm := by
+  simp [applyConstraintsAt]
+
+theorem reduceAt_labels_sub (mi : ModelItems) (x : Rat) (lm : LMat2) :
+    ∀ l ∈ (reduceAt mi x lm).labels, l ∈ (applyRelationsAt mi.relations x lm).labels := by
+  intro l hl
+  rw [reduceAt, applyConstraintsAt_labels] at hl
+  exact (pickMask_sublist _ _).subset hl
+
+/-- `retrieve_clps` = expand to the full labels (zeros for missing labels), then complete by the
+    applying relations -/
+theorem retrieveClps_eq (mi : ModelItems) (x : Rat) (lm : LMat2) (hwf : WF lm) (c : Vec)
+    (hc : c.length = (reduceAt mi x lm).labels.length) :
+    retrieveClps mi lm.labels (reduceAt mi x lm).labels c x =
+      (triples mi.relations lm.labels x).foldl stepV
+        (baseOf lm.labels (reduceAt mi x lm).labels c) := by
+  rw [retrieveClps_unfold]
+  split
+  · rename_i h
+    simp only [Bool.and_eq_true, List.isEmpty_iff] at h
+    have hred : reduceAt mi x lm = lm := by
+      rw [reduceAt, h.1, h.2, applyRelationsAt_nil, applyConstraintsAt_nil]
+    rw [hred] at hc ⊢
+    rw [h.1, baseOf_self _ _ hwf.1 hc]
+    rfl
+  · rw [foldl_retStep]
+
+theorem reduced_problem_equiv_aux (mi : ModelItems) (x : Rat) (lm : LMat2) (hwf : WF lm)
+    (hnc : NoChain mi.relations lm.labels x) (c : Vec)
+    (hc : c.length = (reduceAt mi x lm).labels.length) :
+    mulVec (reduceAt mi x lm).m c =
+      mulVec lm.m (retrieveClps mi lm.labels (reduceAt mi x lm).labels c x) := by
+  rw [retrieveClps_eq mi x lm hwf c hc]
+  have hwf1 := applyRelationsAt_wf mi.relations x lm hwf
+  have h1 := constraints_stage mi.constraints x _ hwf1 c
+  have h2 := relations_stage mi.relations x lm hwf hnc
+    (baseOf (applyRelationsAt mi.relations x lm).labels (reduceAt mi x lm).labels c)
+    (baseOf_length _ _ _)
+  rw [baseOf_baseOf _ _ _ _ (reduceAt_labels_sub mi x lm)] at h2
+  rw [← h2]
+  exact h1
+
+/-! ### entries of `retrieve_clps` -/
+
+theorem foldl_stepV_getD_other (T : List (Nat × Nat × Rat)) (v : Vec) (i : Nat)
+    (h : i ∉ T.map (·.2.1)) : (T.foldl stepV v).getD i 0 = v.getD i 0 := by
+  induction T generalizing v with
+  | nil => rfl
+  | cons t T ih =>
+    have h1 : t.2.1 ≠ i := fun h' => h (by simp [h'])
+    have h2 : i ∉ T.map (·.2.1) := fun h' => h (by simp only [List.map_cons, List.mem_cons]; exact Or.inr h')
+    simp only [List.foldl_cons]
+    rw [ih _ h2]
+    simp only [stepV, List.getD_eq_getElem?_getD]
+    rw [List.getElem?_set_ne h1]
+
+theorem foldl_stepV_getD_target (T : List (Nat × Nat × Rat)) (v : Vec)
+    (hT : (T.map (·.2.1)).Nodup) (hst : ∀ t ∈ T, ∀ t' ∈ T, t.1 ≠ t'.2.1)
+    (t : Nat × Nat × Rat) (ht : t ∈ T) (hlt : t.2.1 < v.length) :
+    (T.foldl stepV v).getD t.2.1 0 = t.2.2 * v.getD t.1 0 := by
+  induction T generalizing v with
+  | nil => simp at ht
+  | cons t0 T ih =>
+    have hTn : t0.2.1 ∉ T.map (·.2.1) := (List.nodup_cons.mp (by simpa using hT)).1
+    have hT' : (T.map (·.2.1)).Nodup := (List.nodup_cons.mp (by simpa using hT)).2
+    have hst' : ∀ t ∈ T, ∀ t' ∈ T, t.1 ≠ t'.2.1 :=
+      fun a ha b hb => hst a (by simp [ha]) b (by simp [hb])
+    simp only [List.foldl_cons]
+    rcases List.mem_cons.mp ht with rfl | ht'
+    · rw [foldl_stepV_getD_other T _ _ hTn]
+      simp [stepV, List.getD_eq_getElem?_getD, hlt]
+    · rw [ih (stepV v t0) hT' hst' ht' (by simpa [stepV] using hlt)]
+      have hne : t0.2.1 ≠ t.1 := fun h => hst t (by simp [ht']) t0 (by simp) h.symm
+      simp only [stepV, List.getD_eq_getElem?_getD]
+      rw [List.getElem?_set_ne hne]
+
+theorem retrieve_zero_aux (mi : ModelItems) (x : Rat) (lm : LMat2) (c : Vec) (l : String)
+    (hl : l ∈ lm.labels) (hnot : l ∉ (reduceAt mi x lm).labels)
+    (hnt : ∀ r ∈ mi.relations, appliesRel lm.labels x r = true → r.target ≠ l) :
+    (retrieveClps mi lm.labels (reduceAt mi x lm).labels c x).getD (lm.labels.idxOf l) 0 = 0 := by
+  rw [retrieveClps_unfold]
+  split
+  · rename_i h
+    simp only [Bool.and_eq_true, List.isEmpty_iff] at h
+    have hred : reduceAt mi x lm = lm := by
+      rw [reduceAt, h.1, h.2, applyRelationsAt_nil, applyConstraintsAt_nil]
+    rw [hred] at hnot
+    exact absurd hl hnot
+  · rw [foldl_retStep, foldl_stepV_getD_other]
+    · rw [baseOf, map_getD_idxOf _ _ l hl, List.idxOf?_eq_none_iff.mpr hnot]
+    · intro hmem
+      simp only [List.mem_map] at hmem
+      obtain ⟨t, ht, hti⟩ := hmem
+      obtain ⟨r, hr, ha, rfl⟩ := (mem_triples _ _ _ t).mp ht
+      exact hnt r hr ha (idxOf_inj _ _ _ (appliesRel_mem _ _ _ ha).1 hl hti)
+
+theorem retrieve_related_aux (mi : ModelItems) (full reduced : List String) (c : Vec) (x : Rat)
+    (hnc : NoChain mi.relations full x) (r : Relation) (hr : r ∈ mi.relations)
+    (ha : appliesRel full x r = true) :
+    (retrieveClps mi full reduced c x).getD (full.idxOf r.target) 0 =
+      r.param * (retrieveClps mi full reduced c x).getD (full.idxOf r.source) 0 := by
+  rw [retrieveClps_unfold]
+  have hne : (mi.relations.isEmpty && mi.constraints.isEmpty) = false := by
+    cases hrel : mi.relations with
+    | nil => rw [hrel] at hr; simp at hr
+    | cons _ _ => simp
+  rw [hne]
+  simp only [Bool.false_eq_true, if_false, foldl_retStep]
+  have ht : tripleOf full r ∈ triples mi.relations full x :=
+    (mem_triples _ _ _ _).mpr ⟨r, hr, ha, rfl⟩
+  have h1 := foldl_stepV_getD_target _ (baseOf full reduced c) (triples_nodup _ _ _ hnc)
+    (triples_src_ne _ _ _ hnc) _ ht
+    (by rw [baseOf_length]; exact (triples_lt _ _ _ _ ht).2)
+  have h2 := foldl_stepV_getD_other (triples mi.relations full x) (baseOf full reduced c)
+    (tripleOf full r).1 (by
+      intro hmem
+      simp only [List.mem_map] at hmem
+      obtain ⟨t', ht', hti⟩ := hmem
+      exact triples_src_ne _ _ _ hnc _ ht _ ht' hti.symm)
+  simp only [tripleOf] at h1 h2
+  rw [h1, h2]
+
+
+instance (lm : LMat2) : Decidable (WF lm) := by unfold WF; infer_instance
+instance (rels : List Relation) (L : List String) (x : Rat) : Decidable (NoChain rels L x) := by
+  unfold NoChain; infer_instance
 
 end Glotaran.C02
